@@ -165,33 +165,50 @@ def hold_histories(tier):
 
 def run(tier):
     res = vlib.Result(PID, tier, "model_checking")
+    import hashlib
+    checks = 0
+    n_hist = 0
+    states = set()     # 16-byte digests of (build, drop order): memory stays bounded for millions of histories
+    samples = []
+    BATCH = 150000
+
+    def flush(specs):
+        nonlocal checks
+        outs = vlib.run_sut("c13", specs, timeout=7200)
+        for s, o in zip(specs, outs):
+            if "crash" in o or "panic" in o:
+                res.violation("C13:crash", {"history": s, "out": {k: o[k] for k in o if k in ("crash", "panic", "stderr")}})
+                continue
+            if "build_error" in o:
+                res.violation("C13:build-error", {"history": s, "error": o["build_error"], "at": o["at"]})
+                continue
+            if "mismatch" in o:
+                m = o["mismatch"]
+                res.violation(f"C13:lost-value:{m['object']}", {"history": s, "mismatch": m})
+                continue
+            checks += o["checks"]
+            key = json.dumps([[b.get("src", b["op"]), b.get("gc", False)] for b in s["build"]]) + "|" + ",".join(s["drops"])
+            states.add(hashlib.blake2b(key.encode(), digest_size=16).digest())
+
     specs = []
     for h in itertools.chain(histories(tier), hold_histories(tier)):
         h["id"] = len(specs)
         specs.append(h)
-    vlib.log(f"[C13] {len(specs)} histories")
-    outs = vlib.run_sut("c13", specs, timeout=7200)
-    checks = 0
-    states = set()
-    for s, o in zip(specs, outs):
-        if "crash" in o or "panic" in o:
-            res.violation("C13:crash", {"history": s, "out": {k: o[k] for k in o if k in ("crash", "panic", "stderr")}})
-            continue
-        if "build_error" in o:
-            res.violation("C13:build-error", {"history": s, "error": o["build_error"], "at": o["at"]})
-            continue
-        if "mismatch" in o:
-            m = o["mismatch"]
-            res.violation(f"C13:lost-value:{m['object']}", {"history": s, "mismatch": m})
-            continue
-        checks += o["checks"]
-        states.add((json.dumps([b.get("src", b["op"]) for b in s["build"]]), tuple(s["drops"])))
+        n_hist += 1
+        if len(samples) < 2 and n_hist in (1, 5000):
+            samples.append(h)
+        if len(specs) >= BATCH:
+            flush(specs)
+            specs = []
+    if specs:
+        flush(specs)
+    vlib.log(f"[C13] {n_hist} histories")
     res.coverage = {
         "states": len(states),
         "transitions": checks,
-        "traces_validated_against_impl": len(specs),
-        "samples": [specs[0], specs[len(specs) // 2]],
-        "histories": len(specs),
+        "traces_validated_against_impl": n_hist,
+        "samples": samples,
+        "histories": n_hist,
         "explanation": "every history is executed on the real API (build: evaluate+freeze modules that load from earlier ones through "
                        "7 patterns {direct use, re-export, inside containers/struct, captured by a def, host import_public_symbols, "
                        "OwnedFrozen::add_to_heap + Module::set, function only}; owned handles incl. mapped handles reaching into an "
